@@ -235,6 +235,9 @@ class HtfLoop:
     def run_for(self, interp, st, fr):
         path = cur()
         count = fr.env["count"]
+        import ast as _a
+        from pyvc.loops import require_declared
+        require_declared(st, fr, {"u", "i"} | {n.id for n in _a.walk(st.target) if isinstance(n, _a.Name)}, self.name)
         prev, path.in_source = path.in_source, False
         try:
             i = SInt(z3.Int("i"))
@@ -396,6 +399,13 @@ def u_keygen(ctx):
 
         def inv(env, gh):
             k = gh["k"]
+            if "SK" not in env:
+                # the candidate is not a loop-carried variable (early-return form `while True: ...; if SK != 0: return SK`): at
+                # the loop head every candidate so far was zero
+                # (the clause `candidate` of the sentinel form — SK = cand(k) — has no loop-carried counterpart here: the value
+                # returned from inside the body is tied to cand(k + 1) by the function's postcondition `ensures.draft-v4`)
+                return [("round", k >= 0), ("salt", bt(env["salt"]) == salt(k)), ("candidate", z3.BoolVal(True)),
+                        ("earlier-zero", allzero(k + 1))]
             SK = zt(env["SK"])
             return [("round", k >= 0), ("salt", bt(env["salt"]) == salt(k)),
                     ("candidate", z3.If(k == 0, SK == 0, SK == cand(k))),
@@ -406,7 +416,7 @@ def u_keygen(ctx):
         loop = Z3Loop(f"{q}/loop0", ["SK", "salt", "prk", "l", "okm"], inv,
                       ghost_init=lambda env: dict(k=z3.IntVal(0)), ghost_havoc=ghost_havoc,
                       ghost_step=lambda before, gh, after: dict(k=gh["k"] + 1),
-                      lemmas=lambda env, gh: defs(gh["k"] + 1),
+                      lemmas=lambda env, gh: defs(gh["k"] + 1) + defs(gh["k"] + 2)[3:],
                       exit_lemmas=lambda env, gh: [z3.Implies(gh["k"] >= 1, z3.And(cand(gh["k"]) >= 0, cand(gh["k"]) < R_BLS))])
         it.cfg.loops[(q, 0)] = _PreBind(loop, {"prk": b"", "l": 0, "okm": b""})
         it.cfg.top = q
